@@ -242,6 +242,24 @@ def run(ctx):
                     raise RuntimeError("extract harness died after %r" % out[:100])
     finally:
         h.close()
+    # ---- documents processed by several workers at once (the postprocessor runs a pool): pages with their own <base>, JSON, XML, playlists
+    docs = []
+    for k in range(6):
+        docs.append({"url": "http://site.example/c/%d" % k, "ctype": "text/html",
+                     "bodyTemplate": '<html><head><base href="http://b{W}.example/dir%d/"></head><body><a href="x/{W}">a</a><a href="/y">b</a>'
+                                     '<img src="i{W}.png"><a href="?q={W}">c</a></body></html>' % k})
+    for ct, body in base[:8]:
+        if ct != "s3":
+            docs.append({"url": "http://site.example/c/x", "ctype": ct, "bodyhex": body.hex()})
+    op = {"op": "concurrent", "docs": docs, "workers": 8, "rounds": 60 if ctx.thorough() else 12, "timeoutMs": 120000}
+    rc, out, err = core.run_impl("extract", [json.dumps({"op": "cfg", "maxHops": 3}), json.dumps(op)], timeout=300)
+    ctx.case("concurrent-documents", True)
+    ctx.count("concurrent-document-runs")
+    if rc != 0 or len(out) < 2:
+        why = [l for l in err.split("\n") if l.startswith("fatal error:") or l.startswith("panic:")][:2] or err[-300:].strip().split("\n")[-2:]
+        ctx.violation("documents processed by 8 workers at once took the crawler down: %s" % "; ".join(why), {"domain": "extract-concurrent", "op": op})
+    elif out[1] != "ok":
+        ctx.violation("documents processed by 8 workers at once: %s" % out[1][:300], {"domain": "extract-concurrent", "op": op})
     # ---- headers through the real redirect handling, and URL strings through the normaliser
     hs = core.Interactive("stage")
     try:
@@ -303,7 +321,15 @@ def run(ctx):
                         "hang = no answer within 10 s for one document (the process is then replaced: the spinning goroutine cannot be stopped)"]
 
 
+def replay_concurrent(ctx, rp):
+    rc, out, err = core.run_impl("extract", [json.dumps({"op": "cfg", "maxHops": 3}), json.dumps(rp["op"])], timeout=300)
+    if rc != 0 or len(out) < 2 or out[1] != "ok":
+        ctx.violation("replay: concurrent documents: %s" % ((out[1] if len(out) > 1 else err[-300:])[:300]), rp)
+
+
 def replay(ctx, doc):
+    if doc.get("replay", doc).get("domain") == "extract-concurrent":
+        return replay_concurrent(ctx, doc.get("replay", doc))
     rp = doc.get("replay", doc)
     if "op" in rp:
         h = core.Interactive("extract")
